@@ -295,8 +295,8 @@ impl ZincEncode for Grid {
         }
         writer.write_all(b"\n")?;
 
-        if self.is_empty() {
-            // No rows to be written
+        if self.columns.is_empty() && self.rows.is_empty() {
+            // Nothing to be written
             writer.write_all(b"empty\n")?;
         } else {
             // Columns
